@@ -342,9 +342,9 @@ func strList(l []string) string {
 }
 
 // ---- the two inventory-policy filters (pkg/apply/filter) as guarded statement lists ----------------------------
-// A method body made of assignments, `if cond { ... }` without init/else whose bodies hold only further such ifs and
-// returns, and single-result returns, is flattened exactly into items (guards, is-return, text): an item runs when
-// all its guards hold at that moment (no assignment occurs inside an if body, so guards cannot change under it).
+// A method body is emitted as a statement tree (Inductive fstmt in the generated file): assignments and returned
+// expressions as rendered text, if / else and tagless switch as SIf; anything else is SBad, on which the interpreter
+// of Proofs/PolicySrcAgree.v is stuck.
 func findMethod(f *ast.File, recv, name string) *ast.FuncDecl {
 	for _, d := range f.Decls {
 		fd, ok := d.(*ast.FuncDecl)
@@ -365,49 +365,75 @@ func retText(e ast.Expr) string {
 	return render(e)
 }
 
-func flatten(stmts []ast.Stmt, guards []string, top bool, out *[]string) {
-	item := func(ret bool, text string) {
-		b := "false"
-		if ret {
-			b = "true"
-		}
-		*out = append(*out, "("+strList(guards)+", ("+b+", "+coqStr(text)+"))")
+// statement tree: SAssign text | SRet text | SIf cond then else | SBad text
+func stmts(l []ast.Stmt) string {
+	var out []string
+	for _, s := range l {
+		out = append(out, stmt(s))
 	}
-	for _, s := range stmts {
-		switch v := s.(type) {
-		case *ast.AssignStmt:
-			if !top {
-				item(true, "?assignment inside if: "+render(v))
-				continue
-			}
-			item(false, render(v))
-		case *ast.IfStmt:
-			if v.Init != nil || v.Else != nil {
-				item(true, "?if with init/else: "+render(v.Cond))
-				continue
-			}
-			g := append(append([]string(nil), guards...), render(v.Cond))
-			flatten(v.Body.List, g, false, out)
-		case *ast.ReturnStmt:
-			if len(v.Results) != 1 {
-				item(true, "?return: "+render(v))
-				continue
-			}
-			item(true, retText(v.Results[0]))
-		default:
-			item(true, "?stmt: "+render(s))
+	return "[" + strings.Join(out, "; ") + "]"
+}
+
+func stmt(s ast.Stmt) string {
+	switch v := s.(type) {
+	case *ast.AssignStmt:
+		return "SAssign " + coqStr(render(v))
+	case *ast.ReturnStmt:
+		if len(v.Results) != 1 {
+			return "SBad " + coqStr("return: "+render(v))
 		}
+		return "SRet " + coqStr(retText(v.Results[0]))
+	case *ast.BlockStmt:
+		return "SIf " + coqStr("true") + " " + stmts(v.List) + " []"
+	case *ast.IfStmt:
+		if v.Init != nil {
+			return "SBad " + coqStr("if with init: "+render(v.Cond))
+		}
+		els := "[]"
+		if v.Else != nil {
+			els = "[" + stmt(v.Else) + "]"
+		}
+		return "SIf " + coqStr(render(v.Cond)) + " " + stmts(v.Body.List) + " " + els
+	case *ast.SwitchStmt:
+		// tagless switch without init, fallthrough or break = an if / else-if chain (default last in effect)
+		if v.Init != nil || v.Tag != nil {
+			return "SBad " + coqStr("tagged switch")
+		}
+		var dflt *ast.CaseClause
+		var cases []*ast.CaseClause
+		for _, c := range v.Body.List {
+			cc := c.(*ast.CaseClause)
+			for _, b := range cc.Body {
+				if _, ok := b.(*ast.BranchStmt); ok {
+					return "SBad " + coqStr("branch statement in switch")
+				}
+			}
+			if cc.List == nil {
+				dflt = cc
+			} else if len(cc.List) == 1 {
+				cases = append(cases, cc)
+			} else {
+				return "SBad " + coqStr("multi-expression case")
+			}
+		}
+		res := "[]"
+		if dflt != nil {
+			res = stmts(dflt.Body)
+		}
+		for i := len(cases) - 1; i >= 0; i-- {
+			res = "[SIf " + coqStr(render(cases[i].List[0])) + " " + stmts(cases[i].Body) + " " + res + "]"
+		}
+		return "SIf " + coqStr("true") + " " + res + " []"
 	}
+	return "SBad " + coqStr("stmt: "+render(s))
 }
 
 func filterBody(f *ast.File, recv string) string {
 	fd := findMethod(f, recv, "Filter")
 	if fd == nil {
-		return "[([], (true, " + coqStr("?missing "+recv+".Filter") + "))]"
+		return "[SBad " + coqStr("missing "+recv+".Filter") + "]"
 	}
-	var out []string
-	flatten(fd.Body.List, nil, true, &out)
-	return "[" + strings.Join(out, ";\n   ") + "]"
+	return stmts(fd.Body.List)
 }
 
 func main() {
@@ -479,9 +505,10 @@ func main() {
 	b.WriteString("Definition src_can_prune : list (string * option pexp * (bool * bool)) * (bool * bool) :=\n  " + policyFn(pol, "CanPrune") + ".\n")
 	af := parse(filepath.Join(repo, "pkg/apply/filter/inventory-policy-apply-filter.go"))
 	pf := parse(filepath.Join(repo, "pkg/apply/filter/inventory-policy-prune-filter.go"))
-	b.WriteString("\n(* pkg/apply/filter: the Filter methods of the two inventory-policy filters; item = (guards, (is return, text)) *)\n")
-	b.WriteString("Definition src_policy_apply_filter : list (list string * (bool * string)) :=\n  " + filterBody(af, "InventoryPolicyApplyFilter") + ".\n")
-	b.WriteString("Definition src_policy_prune_filter : list (list string * (bool * string)) :=\n  " + filterBody(pf, "InventoryPolicyPruneFilter") + ".\n")
+	b.WriteString("\n(* pkg/apply/filter: the Filter methods of the two inventory-policy filters as statement trees *)\n")
+	b.WriteString("Inductive fstmt := SAssign (t : string) | SRet (t : string) | SIf (c : string) (th el : list fstmt) | SBad (t : string).\n")
+	b.WriteString("Definition src_policy_apply_filter : list fstmt :=\n  " + filterBody(af, "InventoryPolicyApplyFilter") + ".\n")
+	b.WriteString("Definition src_policy_prune_filter : list fstmt :=\n  " + filterBody(pf, "InventoryPolicyPruneFilter") + ".\n")
 	if err := os.MkdirAll(filepath.Dir(out), 0o755); err != nil {
 		fmt.Fprintln(os.Stderr, err)
 		os.Exit(3)
